@@ -560,7 +560,9 @@ def mi_cases(draw):
     est = draw(st.sampled_from(["binning", "binning", "gauss"]))
     tm = draw(tau_for_s(T, cap=5, keep=3))
     return {"x": x, "tau_max": tm, "estimator": est,
-            "bins": draw(st.integers(2, 8)), "nt_tau0": True}
+            "bins": draw(st.one_of(st.integers(2, 8), st.integers(2, 8),
+                                   st.sampled_from([16, 17, 20]))),
+            "nt_tau0": True}
 
 
 # ================================================================= kNN
@@ -1329,9 +1331,12 @@ def pure_cases(draw):
     uniform = draw(st.booleans())
     if uniform:
         # distinct values and a window length divisible by bins
-        bins = draw(st.integers(2, 6))
+        # few bins, and the default 16 and beyond (flat pair indices leave
+        # uint8 at 17 bins)
+        bins = draw(st.one_of(st.integers(2, 6), st.integers(2, 6),
+                              st.sampled_from([16, 17, 20, 24, 32])))
         tm = draw(st.integers(0, 3))
-        cr = bins * draw(st.integers(1, 8))
+        cr = bins * draw(st.integers(1, 8 if bins <= 6 else 3))
         T = cr + 2 * tm
         N = draw(st.integers(2, 4))
         cols = [draw(st.permutations(list(range(T)))) for _ in range(N)]
